@@ -81,6 +81,7 @@ impl Prop for C05Prop {
             li.start + li.indent_len == toks[k].start
         };
         let mut checked = 0;
+        let mut by_role = [0u32; 4];
         let mut max_units = 0;
         for m in &ann.marks {
             let (mt, at) = (m.tok as usize, m.anchor as usize);
@@ -106,6 +107,7 @@ impl Prop for C05Prop {
                     );
                 }
                 checked += 1;
+                by_role[3] += 1;
                 continue;
             }
             let la = line_info(&out, toks[at].start, cfg);
@@ -152,10 +154,16 @@ impl Prop for C05Prop {
                 );
             }
             checked += 1;
+            by_role[m.role as usize & 3] += 1;
             max_units = max_units.max(um);
         }
         wf::classes(case, ctx);
         ctx.class_if(cfg.begin_always_wrap, "always_wrap");
+        // which clauses were really asserted in this case (vacuity audit)
+        ctx.class_if(by_role[0] > 0, "asserted:statement/member-start");
+        ctx.class_if(by_role[1] > 0, "asserted:block-closer");
+        ctx.class_if(by_role[2] > 0, "asserted:control-flow-begin(always_wrap)");
+        ctx.class_if(by_role[3] > 0, "asserted:file-level-indentation-0");
         let rich = case.tags.iter().any(|t| t == "relational" || t == "anon-routine" || t.starts_with("generic"));
         Outcome::Pass { nontrivial: checked >= 10 && (max_units >= 3 || rich) }
     }
